@@ -422,6 +422,56 @@ func genC18(out *Out, r *Rng, tier string, n int, shard int) {
 			out.Emit(Case{Op: "schema.validate", In: J{"schema": json.RawMessage(schemaB), "data": json.RawMessage(dataB)}, Impl: impl, Prop: propOf(why),
 				Tags: []string{"draft:" + g.draft, "verdict:" + verdict, fmt.Sprintf("by-construction:%v", byConstruction[k])}, NT: true})
 		}
+		// malformed JSON: the text of an instance damaged in one place; whatever encoding/json does not accept as one JSON
+		// value must be reported as an error, also when a well-formed, conforming prefix precedes the damage
+		for k := 0; k < 4 && len(insts) > 0; k++ {
+			base := toJSONText(insts[r.Intn(len(insts))])
+			if k == 0 {
+				base = toJSONText(insts[0])
+			}
+			var bad []byte
+			kind := ""
+			switch r.Intn(6) {
+			case 0:
+				kind = "trailing"
+				bad = append(append([]byte{}, base...), r.Pick([]string{"}", "]", " }", "\n]", "} x", ",", "x", "{}", " null", ":", "\"", "]]", "}}"})...)
+			case 1:
+				kind = "truncated"
+				bad = append([]byte{}, base[:r.Intn(len(base))]...)
+			case 2:
+				kind = "char-deleted"
+				i := r.Intn(len(base))
+				bad = append(append([]byte{}, base[:i]...), base[i+1:]...)
+			case 3:
+				kind = "char-inserted"
+				i := r.Intn(len(base) + 1)
+				bad = append(append(append([]byte{}, base[:i]...), r.Pick([]string{"{", "}", "[", "]", ",", ":", "\"", "\\", "x", "0", "-"})...), base[i:]...)
+			case 4:
+				kind = "leading"
+				bad = append([]byte(r.Pick([]string{"}", "]", ",", "x", "{} ", "[", "\ufeff"})), base...)
+			default:
+				kind = "char-replaced"
+				i := r.Intn(len(base))
+				bad = append([]byte{}, base...)
+				bad[i] = r.Pick([]string{"{", "}", "[", "]", ",", ":", "\"", "x", "\x00"})[0]
+			}
+			if json.Valid(bad) {
+				continue // the damage happened to leave a JSON value
+			}
+			verdict, verr := verdictOf(bad, schemaB)
+			var why []string
+			if verdict != "error" {
+				why = append(why, fmt.Sprintf("malformed JSON data (%s) is reported %s: %q", kind, verdict, trunc(string(bad), 300)))
+			}
+			if e2 := runValidate(bad, schemaB, true); e2 == nil {
+				why = append(why, "Processor.ValidateData accepts malformed JSON data")
+			}
+			if errClass(verr) == "panic" || errClass(verr) == "hang" {
+				why = append(why, verr.Error())
+			}
+			out.Emit(Case{Op: "none", In: J{"schema": json.RawMessage(schemaB), "text": string(bad)}, Impl: J{"err": "err"}, Prop: propOf(why),
+				Tags: []string{"malformed-data", "damage:" + kind}, NT: true})
+		}
 		// annotation members are ignored: the verdicts must not change when $metadata is removed
 		noMeta := OObj{}
 		for _, kv := range root {
@@ -471,6 +521,9 @@ func emitSchemaErrors(out *Out) {
 		{"data-malformed", okSchema, `{"a":`, "error"},
 		{"data-empty", okSchema, ``, "error"},
 		{"data-trailing", okSchema, `{} {}`, "error"},
+		{"data-trailing-brace", okSchema, `{"a":"x"}}`, "error"},
+		{"data-trailing-bracket", okSchema, `{"a":"x"} ]`, "error"},
+		{"data-trailing-comma", okSchema, `{"a":"x"},`, "error"},
 		{"valid", okSchema, `{"a":"x"}`, "valid"},
 		{"invalid", okSchema, `{"a":5}`, "invalid"},
 		{"schema-true", `true`, `{}`, "valid"},
